@@ -113,6 +113,17 @@ class CallMixin:
 
     def opaque_call(self, desc, args, kwargs):
         """A call the encoding knows nothing about.  Containers passed to it may be mutated by it."""
+        name = desc.rsplit(".", 1)[-1].rstrip("()")
+        top = self.frames[0].contract if self.frames and hasattr(self.frames[0], "contract") else None
+        need = (top.ghost.get("call_requires") or {}).get(name) if top is not None else None
+        if need and not self.ctx.spec:
+            # library calls whose keyword arguments carry meaning the contract relies on (ghost call_requires = {method: {kw: [literals]}})
+            for kw, allowed in need.items():
+                got = kwargs.get(kw, "<absent>")
+                ok = isinstance(got, (str, int, bool)) and got in allowed
+                self.ctx.oblige("call-pre", f"{name}.{kw} in {allowed}", z3.BoolVal(bool(ok)), top=True,
+                                info={"callee": name, "clause": f"{name}(..., {kw}=...) must be one of {allowed}; found {got!r}"})
+            self.ctx.ghost["seen_" + name] = True
         for a in list(args) + list(kwargs.values()):
             if isinstance(a, Cell) and not self.engine.extern_is_readonly(desc):
                 self.mutate(a, f"passing to unmodelled {desc}")
